@@ -187,6 +187,7 @@ PROPS["C15"] = conv_entry(
     "one case = (from_be_slice|from_le_slice, type, byte string) for every length 0..2*BYTES+2 (exhaustive over the byte alphabet {00,01,7f,80,ff} for BYTES <= 2; elsewhere value part random/extreme, excess part pure zero/sign padding with seeded impurities and sign-bit agreement/disagreement), "
     "and (to_be|to_le|from_be|from_le, type, value); non-trivial = slice length differs from BYTES and is not a multiple of 8 bytes, or the slice is rejected",
     lambda e: (e["op"].endswith("slice") and (len(e["a"][0]["v"]) != e["w"] // 8)) or any_flag(e))
+PROPS["C15"]["nightly"] = True
 PROPS["C16"] = conv_entry(
     "constants of every matrix type (BITS, BYTES, MIN, MAX, ZERO, ONE..TEN, NEG_ONE..NEG_TEN, Default) and the seven alias pairs; cross-digit-type casts at equal width; "
     "narrow/wide commutation of add, sub, mul, div, rem, pow, shl, cmp, decimal print and parse over 16 (narrow, wide) configuration pairs; "
